@@ -34,11 +34,11 @@ func init() {
 }
 
 type node struct {
-	kind     string // map, array, bytes, int, text, bool, nil, tag, embedded, other
-	keys     []any  // map keys in encoding order
-	kids     []*node
-	val      any
-	tag      uint64
+	kind string // map, array, bytes, int, text, bool, nil, tag, embedded, other
+	keys []any  // map keys in encoding order
+	kids []*node
+	val  any
+	tag  uint64
 }
 
 func build(v any) *node {
